@@ -248,6 +248,7 @@ def run(chk):
     for e, m in zip(events, meta):
         chk.judged((m[0], "t", "".join(e["ident"]), "".join(e["rename"]), e["rule"]))
     compose.run(chk, "keys")
+    compose.run_members(chk, "keys")
 
 
 def replay(chk, rec):
